@@ -212,12 +212,12 @@ def work_recursive(args):
         cfg.setdefault("dependencies", {})[pl[0]] = {"key-name": "key_ed25519", "key-id": "0x1"}
         expect_fail = "a named dependency is not an envelope"
     elif mode == "mismatch":
-        def poison(c):
+        def poison(c, inherited="eddsa"):
+            alg = c.get("alg", inherited)          # the algorithm in force at this node (its own, or the one handed down)
             if not c.get("omit-signing"):
-                alg = c.get("alg")
-                c["key-name"] = "key_p256" if (alg or "eddsa") != "es-256" else "key_ed25519"
+                c["key-name"] = "key_p256" if alg != "es-256" else "key_ed25519"
                 return True
-            return any(poison(x) for x in c.get("dependencies", {}).values())
+            return any(poison(x, alg) for x in c.get("dependencies", {}).values())
         if not poison(cfg):
             return None
         expect_fail = "a key whose type does not match the algorithm"
